@@ -603,6 +603,32 @@ class Engine:
             st.assume(self.ev(node, st, True))
             self.used_models.add("model:sortedcontainers enumeration invariant assumed at a program point (model_inv)")
             return
+        if text.startswith("use "):
+            # use lemma(b1=expr, ...): one explicit instance of a lemma of this contract (proved at entry; symbols other than its
+            # binders denote entry values).  Needed where a binder must be instantiated by a lambda term, which E-matching does not find.
+            node = ast.parse(text[len("use "):].strip(), mode="eval").body
+            if not (isinstance(node, ast.Call) and isinstance(node.func, ast.Name)):
+                raise EngineError("use lemma(binder=expr, ...)")
+            lem = next((l for l in self.c.lemmas if l.name == node.func.id), None)
+            if lem is None:
+                raise EngineError(f"use: no lemma {node.func.id} in this contract")
+            vals = {k.arg: self.ev(k.value, st, True) for k in node.keywords}
+            if set(vals) != {n for n, _ in lem.binders}:
+                raise EngineError(f"use {lem.name}: give every binder {[n for n, _ in lem.binders]}")
+            env2 = self.entry_view(st)
+            for n, s_ in lem.binders:
+                v = vals[n]
+                v = v.data if isinstance(v, Arr) else v
+                if is_z3(v) and v.sort() != sort_of(s_):
+                    if sort_of(s_) == R and v.sort() == I:
+                        v = z3.ToReal(v)
+                    else:
+                        raise EngineError(f"use {lem.name}: binder {n} has sort {sort_of(s_)}, given {v.sort()}")
+                env2.env[n] = self.wrap_bound(v)
+            hyps = [self.spec(h, env2) for h in lem.hyps]
+            b = self.spec(lem.statement, env2)
+            st.assume(z3.Implies(z3.And(*hyps), b) if hyps else b)
+            return
         if text.startswith("assert "):
             cl = Clause(text[len("assert "):])
             g = self.spec(cl, st)
